@@ -1275,15 +1275,23 @@ impl<T> BlockAddr for UniqueArc<T> {
 // F. payloads without drop glue: Clone must still be what produces copies (no bit-copy shortcuts)
 
 pub fn nodrop_cases(st: &mut FStats) -> R {
-    use crate::tk::ND;
+    // size classes: 16 bytes, exactly 64, 72, 272
+    nodrop_cases_n::<0>(st)?;
+    nodrop_cases_n::<6>(st)?;
+    nodrop_cases_n::<7>(st)?;
+    nodrop_cases_n::<32>(st)
+}
+
+fn nodrop_cases_n<const N: usize>(st: &mut FStats) -> R {
+    type ND<const M: usize> = crate::tk::ND<M>;
     shadow::reset();
     // unwrap_or_clone: sole owner moves (0 clones, same serial), shared clones exactly once (new serial)
-    let a = shadow::tracked(|| Arc::new(ND::make(5)));
+    let a = shadow::tracked(|| Arc::new(ND::<N>::make(5)));
     let s0 = a.serial;
     let c0 = tk::clones();
     let v = shadow::tracked(|| Arc::unwrap_or_clone(a));
     ensure!(tk::clones() == c0 && v.serial == s0, "C09", "unwrap", "unwrap_or_clone of a solely owned no-drop-glue value made {} clones (serial {} -> {})", tk::clones() - c0, s0, v.serial);
-    let a = shadow::tracked(|| Arc::new(ND::make(6)));
+    let a = shadow::tracked(|| Arc::new(ND::<N>::make(6)));
     let b = shadow::tracked(|| a.clone());
     let s0 = a.serial;
     let c0 = tk::clones();
@@ -1324,6 +1332,6 @@ pub fn nodrop_cases(st: &mut FStats) -> R {
         ensure!(shadow::live_count() == 0, "C01", "live", "blocks left behind by the no-drop-glue cases");
     }
     st.counts.bump("faults.nodrop.runs");
-    st.cases.insert(hash64("nodrop"));
+    st.cases.insert(hash64(&format!("nodrop{}", N)));
     Ok(())
 }
